@@ -3,7 +3,7 @@
 check catches it now.  usage: seed_recheck.py [names...]   (default: all of seeded/*)"""
 import glob, json, os, subprocess, sys
 VERIF = os.path.dirname(os.path.dirname(os.path.abspath(__file__)))
-WT = '/tmp/wt-seeds'
+WT = os.environ.get('SEED_WT', '/tmp/wt-seeds')
 
 
 def sh(cmd, cwd=None):
@@ -34,7 +34,7 @@ def main():
             res = []
             try:
                 for p in pids:
-                    rc, out = sh('VERIF_EVIDENCE_DIR=/tmp/seed-evidence DESPER_REPO=%s bin/check %s --tier quick' % (WT, p), cwd=VERIF)
+                    rc, out = sh('VERIF_EVIDENCE_DIR=%s-evidence DESPER_REPO=%s bin/check %s --tier quick' % (WT, WT, p), cwd=VERIF)
                     cl = [l for l in out.splitlines() if l.startswith('counterexample')]
                     clause = cl[0].split('clause ')[1].split(')')[0] if cl else ''
                     res.append('%s exit %d %s' % (p, rc, clause))
